@@ -131,3 +131,42 @@ def stats(trace):
             nested += len(e["probe"].get("nested", []))
             torn += len(e.get("torn", []))
     return c, outcomes, nested, torn
+
+
+def logstorm(ctx, prefixes, what="bulk writers against a slow log device"):
+    """Six goroutines rewrite all rows of their own tables (1.4 MB of log records per statement) while the log device
+    is slow: the log buffer fills several times while a log write is in flight - the "buffer full" exits of
+    AppendLogRecord under concurrency (spec/LogBuffer: NoOverflow).  A panic of the engine ends the driver process;
+    the check then closes the trace with a Died event and TLC reports it."""
+    io = os.path.join(ctx.work, "logstorm.ndjson")
+    died = None
+    try:
+        vlib.vdrive(ctx, ["rm", "logstorm", io, 3 if ctx.tier == "thorough" else 1, 8], timeout=900, ok_codes=(0, 3),
+                    env={"VERIF_SEED": str(ctx.seed * 41)})
+    except Inconclusive as ex:
+        msg = str(ex)
+        if "panic:" not in msg and "fatal error:" not in msg:
+            raise
+        i = msg.find("panic:") if "panic:" in msg else msg.find("fatal error:")
+        died = msg[i:i + 700]
+    lines = []
+    if os.path.exists(io):
+        for l in open(io):
+            try:
+                json.loads(l)
+                lines.append(l if l.endswith("\n") else l + "\n")
+            except Exception:
+                break
+    if died is not None:
+        if not lines:
+            lines.append(json.dumps({"ev": "Reset"}) + "\n")
+        lines.append(json.dumps({"ev": "Died", "msg": died}) + "\n")
+    with open(io, "w") as f:
+        f.writelines(lines)
+    res = vlib.validate(ctx, FAM, "CrashModelTrace", "Trace.cfg", io, name="val-logstorm", timeout=1800)
+    judge(ctx, res, io, what, prefixes=prefixes)
+    c = count_events(io)
+    big = max([e.get("bytes", 0) for e in vlib.read_ndjson(io) if e["ev"] == "WLog"] + [0])
+    if died is None and big < 500000:
+        raise Inconclusive("vacuous: the log buffer never filled (largest log write %d bytes)" % big)
+    return dict(events=dict(c), largest_log_write_bytes=big)
